@@ -339,7 +339,10 @@ def run(ctx):
         for _ in range(rng.choice([5, 15, 40])):
             ed = du.gen_edit(rng, circ, malformed=False, allow_measz=False, max_regs=8, label_pool=("mine", "tagA"))
             toks.append(du.edit_token(ed))
-            du.apply_edit(circ, ed)
+            if ed[0] == "C":
+                circ = circ.copy()
+            else:
+                du.apply_edit(circ, ed)
         with_eff = eff_cost_ok(circ)
         q = "m" if with_eff else "n"
         rep = drv.ask(f"dag.run ne={init[0]} np={init[1]} nc={init[2]} edits={du.emp(','.join(toks))} qs={','.join(['*'] * (len(toks) - 1) + [q])}")
